@@ -15,8 +15,8 @@ Inductive case :=
 | CDelay (t_ns : Z) (rates : list Z)
 | CDt (sr : Z).
 
-(** binary64 instance of the Delay's length computation *)
-Definition frames64 (t_ns sr : Z) : Z := @delay_trunc f64 _ _ t_ns sr.
+(** the Delay's length computation (integer arithmetic since the repair of F35; [delay_len] applies max 1) *)
+Definition frames64 (t_ns sr : Z) : Z := Z.min (2 ^ 64 - 1) (t_ns * sr / 1000000000).
 Definition dt_bits (sr : Z) : Z := bits_of_f64 (@dt_of f64 _ sr).
 
 (** the renderer's [dt] at the usual rates, computed once (by the model's own function) when this file is compiled *)
@@ -71,6 +71,6 @@ Definition run (c : case) : list Z :=
       let effs := state_effects s in
       flat_map (fun '(i, told, dtr, n) => [i; told; lookup tab dtr; n]) evs
       ++ (-1) :: flat_map (fun i => enc_told (find_told effs (Z.of_nat i))) (seq 0 (Z.to_nat nids))
-  | CDelay t_ns rates => map (fun r => @delay_frames f64 _ _ t_ns r) rates
+  | CDelay t_ns rates => map (fun r => delay_frames_int t_ns r) rates
   | CDt sr => [dt_bits sr]
   end.
